@@ -175,7 +175,7 @@ Proof. vm_compute. split; reflexivity. Qed.
     the release of that read emits its return and then the caller's return
     with [read_code]).  By induction over all traces - any decorator, any mix
     of entry points, any schedule, faults and cancellations. *)
-From BBS Require Import Compose.EventLog Run.R17LogBase Run.R17LogEntry Run.R17LogMon Run.R17LogExamples.
+From BBS Require Import Compose.EventLog Run.R17LogBase Run.R17LogEntry Run.R17LogOrder Run.R17LogMon Run.R17LogExamples.
 Local Open Scope nat_scope.
 
 Theorem clause27_silent_on_every_trace : forall kinds m x0 tr x,
@@ -199,6 +199,21 @@ Theorem monitor_silent_on_accepted_observation_with_model_log :
   agreeL inp obs' = true /\ mon17L inp obs' = [].
 Proof. exact mon17L_silent_on_accepted_with_model_log. Qed.
 Print Assumptions monitor_silent_on_accepted_observation_with_model_log.
+
+(** ... and carrying any rewrite of that log that keeps every caller's lines in
+    order and moves no line across a start event ([same_run], see Props/C17.v:
+    the order in which two callers woken in the same round write their lines
+    is not determined); clause 27 does not depend on the order at all. *)
+Theorem monitor_silent_on_accepted_observation_any_write_order :
+  forall inp obs m kinds sets source sink evs tr x lg',
+  agreeL inp obs = true ->
+  cfgL inp = (m, kinds, sets, source, sink, evs) ->
+  xrun kinds m (xinit kinds sets source sink) tr = Some x ->
+  same_run (xlog kinds m (xinit kinds sets source sink) tr) lg' ->
+  let obs' := L [sx_nth obs 0; sx_nth obs 1; sx_nth obs 2; sx_nth obs 3; L lg'] in
+  agreeL inp obs' = true /\ mon17L inp obs' = [].
+Proof. exact mon17L_silent_on_accepted_any_write_order. Qed.
+Print Assumptions monitor_silent_on_accepted_observation_any_write_order.
 
 (** Non-vacuity and the tie to the real code: limit 1, caller 0 uses
     ReplicateSingle, caller 1 ReplicateComposite (its read-back fails with
